@@ -1003,6 +1003,16 @@ class SBytes:
             conj.append(self._byte_term(j) == ch)
         return mk_bool(z3.And(*conj))
 
+    def endswith(self, suffix, *a):
+        if a or not isinstance(suffix, (bytes, bytearray)):
+            raise Unsupported("endswith(range / symbolic)")
+        k = len(suffix)
+        n = tint(self.length())
+        conj = [n >= k]
+        for j, ch in enumerate(suffix):
+            conj.append(self._byte_term(n - k + j) == ch)
+        return mk_bool(z3.And(*conj))
+
     def rstrip(self, chars=None):
         """positional model: the result is a prefix of self (content of the stripped part is not modelled)"""
         k = fresh_int("rstrip.len", register=False)
